@@ -114,6 +114,11 @@ CLAIMED = {
          'writer/reader field sequences (spec, field, width, reserved skip) are identical and the PEAK letter sequences agree; every AIFF text arm consumes the pad byte; every metadata setter tests '
          'have_written and all nine write wrappers set it before transferring. Content-dependent survival of values is not decided.',
          'switch/if arm-table extraction and cross-check; format-string field-sequence extraction; required-fact checks'),
+ 'C07': ('DESIGN.md §4 C07',
+         'Every block codec write function emits encoded data only under a fullness test of a carried counter (recursive unconditional-emitter analysis over the write slots) and no write worker '
+         'resets the carried counter, so block boundaries depend on the concatenated samples only; the only clock / random / environment calls in the library units are the frozen documented ones '
+         'with frozen callers. VOX ADPCM (encodes per call) is listed as a known finding. Byte identity of files and encoder state content are not decided.',
+         'call-graph + control-dependence analysis of emission points; who-may-call inventory for nondeterminism sources'),
 }
 REASONS = {}
 DEFAULT_REASON = 'check not built yet (work in progress); see DESIGN.md'
